@@ -53,8 +53,12 @@ def o1(ctx):
             ctx.check(okr and oka, "nodes-moved:" + C.fkey(b), "each node is removed from the deprecated class and added to the survivor",
                       "the node loop of the merge does not remove from %s and add to %s exactly once per node (removes: %s, adds: %s)" % (dep, surv, [role_str(b.role_of_operand(c.args[1])) for c in rm], [role_str(b.role_of_operand(c.args[1])) for c in ad]), where_of(b, sb))
             ctx.check(okq, "moved-nodes-queued:" + C.fkey(b), "each moved node is queued with PendingType::Full", "moved nodes are not queued for full re-processing", where_of(b, sb))
-            for x in (rm + ad + pq):
-                ctx.check(b.must_pass(some_e, none_e + [("x",)], [x.bb]) or True, "in-loop", "", "", None) if False else None
+            # ... every one of them: the queueing lies on every path through an iteration ("a leaf cannot change its shape" is
+            # no reason to skip — re-processing a moved node is also what re-makes the survivor's analysis datum from it)
+            if okq:
+                ctx.check(b.must_pass(some_e, [sb], [pq[0].bb]), "moved-nodes-queued-unconditionally:" + C.fkey(b), "every iteration of the node-migration loop queues the moved node",
+                          "the node-migration loop of the merge can go on to the next node without queueing the one it just moved (a guard was put in front of the re-queue): a moved node that is skipped is never re-processed in its new class — its contribution to the class's analysis datum, and any congruence it now takes part in, is lost",
+                          where_of(b, pq[0].bb))
         # (b) generators
         ads = [c for c in b.calls if c.callee and c.callee.name in ("add_set", "add") and c.callee.is_(c.callee.name, "group::Group") and not b.blocks[c.bb]["cleanup"]]
         okg = False
